@@ -51,7 +51,12 @@ func Marshal(inputABI abi.ABI, typeName string, jsonData string) ([]byte, error)
 		}
 	}
 	if !found {
-		return nil, fmt.Errorf("action %s not found in ABI", typeName)
+		// not an action: the type may be a registered output
+		output, ok := inputABI.FindOutputByName(typeName)
+		if !ok {
+			return nil, fmt.Errorf("action or output %s not found in ABI", typeName)
+		}
+		typeID = output.ID
 	}
 
 	writer := codec.NewWriter(1, consts.NetworkSizeLimit)
